@@ -51,6 +51,7 @@ class C07(C04):
         for i in range(60 if tier == "quick" else 600):
             h = gen_history(r, 0, maxops=6)
             h["waiters"] = r.choice([2, 3, 4])
+            h["late_clone"] = i % 2 == 1        # all waiters but the first poll their ticket once and then wait on a clone of the polled ticket
             extra.append(h)
         # many controls pending at once (behind a busy task, behind an armed grace timer): every ticket still resolves
         for n, held in ((100, "busy"), (300, "timer"), (100, "timer")):
